@@ -418,8 +418,38 @@ func c10JudgeWeighted(w *mon.W, c c10Case) {
 		}
 		return false
 	}
+	// With small integer weights and a dyadic q every quantity of the rule
+	// (q*W, the cumulative weights, their differences) is exactly
+	// representable, so no rounding can excuse a wrong side of a tie: the
+	// statement's "exceeds" is then judged strictly (no ambiguity window).
+	smallInts := true
+	for _, x := range ws {
+		if x != math.Floor(x) || x < 0 || x > 1<<20 {
+			smallInts = false
+		}
+	}
+	exactQ := func(q float64) bool {
+		if !smallInts || len(ws) > 1<<10 {
+			return false
+		}
+		m, e := math.Frexp(q) // q = m * 2^e, dyadic with few bits?
+		_ = m
+		return e > -24 && q*float64(1<<24) == math.Floor(q*float64(1<<24))
+	}
 	for _, q := range qs {
-		lo, hi := wq.Cands(q, rel)
+		relq := rel
+		if exactQ(q) {
+			relq = 0
+		}
+		lo, hi := wq.Cands(q, relq)
+		if relq == 0 && q > 0 && q < 1 {
+			tw, _ := wq.W.Float64()
+			for k := range wq.Cum {
+				if cw, _ := wq.Cum[k].Float64(); cw == q*tw {
+					w.Hit("weighted-exact-tie-judged-strictly")
+				}
+			}
+		}
 		w.HitIf(q < 0, "weighted-q<0")
 		w.HitIf(q > 1, "weighted-q>1")
 		if lo != hi {
@@ -662,7 +692,7 @@ func c10Run(r *mon.Run) {
 	r.Assume("sample values finite with |x|<=1e307 (gaps do not overflow); weights positive and finite; NaN/Inf q, NaN data, negative or zero weights, len(Weights)!=len(Xs) and Sorted=true on unsorted data are outside the statement",
 		"unweighted tolerance 16 eps ((h+1) G + M) + 4e-323: G largest gap of the segment and its neighbours, M largest magnitude of the order statistics involved",
 		"weighted ambiguity window (1e-12 + 16 n eps) W around every cumulative weight: both neighbouring values accepted")
-	r.Gate("q-at-break(+-1ulp)", "h-exact-integer", "q<0", "q>1", "q=0|1", "n=1", "n=2", "n>=150", "clamp-low(h<1)", "clamp-high(h>=n)",
+	r.Gate("weighted-exact-tie-judged-strictly", "q-at-break(+-1ulp)", "h-exact-integer", "q<0", "q>1", "q=0|1", "n=1", "n=2", "n>=150", "clamp-low(h<1)", "clamp-high(h>=n)",
 		"repeats", "all-equal", "unsorted-input", "empty",
 		"weighted-ties", "weighted-integer", "weighted-real", "weighted-q<0", "weighted-q>1", "weighted-unsorted-input", "weighted-ambiguous", "weighted-unambiguous")
 	if err := ref.C10SelfTest(); err != nil {
